@@ -105,5 +105,19 @@ theorem c03_regression_lastack_progress :
       .deliver .B 9, .deliver .B 10])) = none := by
   decide
 
+/-! ## F-C03-4: SYN-SENT is deleted by a RST that carries no ACK -/
+
+/-- **F-C03-4.**  RFC 9293 3.10.7.3, second: "If the ACK was acceptable, then signal … connection
+    reset …, enter CLOSED state, delete TCB, and return.  Otherwise (no ACK), drop the segment and
+    return."  The code deletes the TCB for every RST that reaches the RST check (it even calls
+    the result `BlindReset`): an old duplicate RST, or a blind one with ANY sequence number, kills
+    a connection attempt.  In the edge table this is the labelled edge SYN-SENT → CLOSED, which
+    requires RST *and* ACK. -/
+theorem c03_synsent_rst_without_ack_counterexample :
+    stateOf .A (Sys.run {} [.open .A 1000 1500]) = some .SynSent ∧
+    stateOf .A (Sys.run {} [.open .A 1000 1500, .inject .A (forge .A 4 77777 0 0 [])]) = none ∧
+    rfcCause (.segment false true false false) (some .SynSent) none = false := by
+  decide
+
 end C03
 end Elvis.Tcp
